@@ -1096,5 +1096,29 @@ def rule_idx(m):
         else:
             res.ok(dict(function=f.display(), yield_guard='skip while !end && vertex > *neighbour: each pair once, loops once'),
                    fn=f.display())
+    # ---- the range object and its iterators are views: they refer to the graph, they do not copy it
+    seen_r = set()
+    for u in m.p.units:
+        if u.std != m.std:
+            continue
+        for r in u.records:
+            if not r['tname'].startswith((LDG + '::', LUG + '::')) or r.get('dependent'):
+                continue
+            for fl in r['fields']:
+                ct = fl['ctype'].replace('const ', '')
+                if not ct.startswith(('BaseGraph::LabeledDirectedGraph<', 'BaseGraph::LabeledUndirectedGraph<')):
+                    continue
+                k = (r['tname'], r.get('args'), fl['name'])
+                if k in seen_r:
+                    continue
+                seen_r.add(k)
+                res.sites += 1
+                if fl['isref'] or fl['isptr']:
+                    res.ok(dict(record=short(r['tname']), field=fl['name'], holds='reference') if len(res.samples) < 34 else None)
+                else:
+                    res.fail(Finding('F-IDX', short(r['tname']), 'graph held by value in ' + fl['name'], u.fmt_loc(fl['loc']),
+                                     '%s::%s holds a copy of the graph: every edges() call makes its own copy, so iterators obtained '
+                                     'from two calls (g.edges().begin() and g.edges().end()) point into different lists and never '
+                                     'compare equal, and an iterator outlives the temporary it points into' % (short(r['tname']), fl['name'])))
     res.require_sites(30, 'index / cursor sites')
     return res
